@@ -315,7 +315,7 @@ def boots_workload_batch(tier, budget_s):
             harness_error("package for %s failed" % name)
         packages[name] = pkg
 
-    def compile_once(image_gc, name, target_gc, sim, flags, tag):
+    def compile_once(image_gc, name, target_gc, sim, flags, tag, timeout=600):
         out = os.path.join(tb.TB, "bw-out-%s.s" % tag)
         stats = os.path.join(tb.TB, "bw-stats-%s.json" % tag)
         env = dict(os.environ)
@@ -327,7 +327,7 @@ def boots_workload_batch(tier, budget_s):
             if os.path.exists(f):
                 os.remove(f)
         try:
-            p = subprocess.run([images[image_gc], packages[name], "-o", out, "--gc=" + target_gc], env=env, stdout=subprocess.PIPE, stderr=subprocess.PIPE, timeout=600, cwd=tb.TB)
+            p = subprocess.run([images[image_gc], packages[name], "-o", out, "--gc=" + target_gc], env=env, stdout=subprocess.PIPE, stderr=subprocess.PIPE, timeout=timeout, cwd=tb.TB)
             rc, err, to = p.returncode, p.stderr.decode(errors="replace")[:3000], False
         except subprocess.TimeoutExpired:
             rc, err, to = -9, "", True
@@ -377,6 +377,13 @@ def boots_workload_batch(tier, budget_s):
                 flags.append("--gc-young-size=%dM" % cfg.choice([2, 4]))
             faults = tb.draw_faults(cfg, False)
             tb.cap_fault_rates(faults, 4000, image_gc, heap, "--gc-verify" in flags, run_budget_ms=6000)
+            # the compiler keeps tens of MiB alive: a collection costs ~0.1-0.2 s here, whatever
+            # the heap size - keep the expected number of injected collections below ~60
+            expected = 5500 * (faults["pminor"] + faults["pfull"] + faults["pfail"]) / 65536.0 * (1 + faults.get("burst", 0) / 8.0)
+            if expected > 60:
+                for k in ("pminor", "pfull", "pfail"):
+                    if faults[k]:
+                        faults[k] = max(1, int(faults[k] * 60 / expected))
             sim = {"seed": cfg.getrandbits(48), "policy": tb.draw_policy(cfg, 2 + 2 * workers, 2000), "hot": cfg.choice([0, 300, 3000])}
             if image_gc == "swiper":
                 sim["hotsweep"] = cfg.choice([sim["hot"], 20000, 65536])
@@ -384,7 +391,14 @@ def boots_workload_batch(tier, budget_s):
             r = compile_once(image_gc, name, "swiper", sim, " ".join(flags), "%d-%d" % (os.getpid(), i))
             run = {"index": i, "exe": ["boots-image", image_gc, "cannon", "sim"], "argv": [name], "dora_flags": " ".join(flags), "sim": sim,
                    "expect": {"rc": 0, "stderr_empty": True}, "workload": "boots compiler compiling %s" % name}
+            run["timeout"] = 600
             v = tb.classify(run, r)
+            if v is not None and v[0] == "timeout":
+                # wall-clock limits are not under the simulator's control: repeat once with a
+                # three times larger limit before believing a hang
+                r = compile_once(image_gc, name, "swiper", sim, " ".join(flags), "%d-%d-again" % (os.getpid(), i), timeout=1800)
+                run["timeout"] = 1800
+                v = tb.classify(run, r)
             if v is None and r["sha"] != refs[(image_gc, name)]:
                 v = ("output-mismatch", "assembly emitted by the simulated compiler differs from the fault-free reference")
             with lock:
